@@ -1208,6 +1208,101 @@ fn check_table(c: &mut Case, t: &Table, m: &Meta, rng: &mut Rng, rs_lane: &mut R
             let proj: Vec<Vec<MV>> = recs.iter().map(|r| project(r, &Src::Block(lazy.string_block()), &mut it)).collect();
             finish_path(c, "lazy-iter", true, proj, &mut results, &mut eager_proj);
         }
+        // the iterator driven through the rest of the Iterator interface (after C17-r6m2): a random program of next / nth /
+        // skip / take / step_by / size_hint / count on one partially consumed iterator; the model is the position in the table
+        if let Some(all) = stage(c, "lazy-iter-program", "record_iterator", "", trap(|| lazy.record_iterator().collect::<wow_cdbc::Result<Vec<Record>>>())) {
+            let want: Vec<Vec<MV>> = all.iter().map(|r| project(r, &Src::Block(lazy.string_block()), &mut it)).collect();
+            let mut prog: Vec<String> = Vec::new();
+            let r = trap(|| -> wow_cdbc::Result<Option<String>> {
+                let mut iter = lazy.record_iterator();
+                let mut pos = 0usize;
+                let mut seen: Vec<(usize, Record)> = Vec::new();
+                for _ in 0..64 {
+                    let rem = n.saturating_sub(pos);
+                    let (lo, hi) = iter.size_hint();
+                    if lo > rem || hi.map(|h| h < rem).unwrap_or(false) {
+                        return Ok(Some(format!("size_hint() = ({lo}, {hi:?}) with {rem} records left after {prog:?}")));
+                    }
+                    let k = rng.usize(4);
+                    match rng.usize(6) {
+                        0 | 1 => {
+                            prog.push("next".into());
+                            match iter.next() {
+                                Some(x) => seen.push((pos, x?)),
+                                None if rem == 0 => break,
+                                None => return Ok(Some(format!("next() = None with {rem} records left after {prog:?}"))),
+                            }
+                            pos += 1;
+                        }
+                        2 => {
+                            prog.push(format!("nth({k})"));
+                            match iter.nth(k) {
+                                Some(x) => seen.push((pos + k, x?)),
+                                None if rem <= k => break,
+                                None => return Ok(Some(format!("nth({k}) = None with {rem} records left after {prog:?}"))),
+                            }
+                            pos += k + 1;
+                        }
+                        3 => {
+                            prog.push(format!("by_ref().skip({k}).next()"));
+                            match iter.by_ref().skip(k).next() {
+                                Some(x) => seen.push((pos + k, x?)),
+                                None if rem <= k => break,
+                                None => return Ok(Some(format!("skip({k}).next() = None with {rem} records left after {prog:?}"))),
+                            }
+                            pos += k + 1;
+                        }
+                        4 => {
+                            prog.push(format!("by_ref().take({k})"));
+                            let mut got = 0;
+                            for x in iter.by_ref().take(k) {
+                                seen.push((pos + got, x?));
+                                got += 1;
+                            }
+                            if got != k.min(rem) {
+                                return Ok(Some(format!("take({k}) yielded {got} records with {rem} left after {prog:?}")));
+                            }
+                            pos += got;
+                        }
+                        _ => {
+                            let step = k + 1;
+                            if rng.bool() {
+                                prog.push(format!("step_by({step})"));
+                                let mut j = pos;
+                                for x in iter.step_by(step) {
+                                    seen.push((j, x?));
+                                    j += step;
+                                }
+                                if rem > 0 && j != pos + rem.div_ceil(step) * step {
+                                    return Ok(Some(format!("step_by({step}) yielded {} records with {rem} left after {prog:?}", (j - pos) / step)));
+                                }
+                            } else {
+                                prog.push("count".into());
+                                let cnt = iter.count();
+                                if cnt != rem {
+                                    return Ok(Some(format!("count() = {cnt} with {rem} records left after {prog:?}")));
+                                }
+                            }
+                            break;
+                        }
+                    }
+                }
+                for (i, rec) in &seen {
+                    if *i >= n {
+                        return Ok(Some(format!("a record was yielded for position {i} of a table with {n} records after {prog:?}")));
+                    }
+                    if project(rec, &Src::Block(lazy.string_block()), &mut it) != want[*i] {
+                        return Ok(Some(format!("the record yielded for position {i} is not record {i} of the table after {prog:?}")));
+                    }
+                }
+                c.count("lazy_iter_program_records", seen.len() as u64);
+                Ok(None)
+            });
+            c.count("lazy_iter_programs", 1);
+            if let Some(Some(bad)) = stage(c, "lazy-iter-program", "drive", "", r) {
+                c.violate("path-disagrees|lazy-iter-program", format!("LazyRecordIterator through the Iterator interface: {bad}"), json!({"program": prog, "records": n}));
+            }
+        }
         // indexed access in a scrambled order
         let mut order: Vec<u32> = (0..n as u32).collect();
         rng.shuffle(&mut order);
